@@ -39,6 +39,10 @@ from sktime.transformations.series.detrend import Deseasonalizer  # noqa: E402
 def build_base(kind):
     if kind == "naive":
         return NaiveForecaster()
+    if kind == "naive_mean6":
+        # a base forecaster configured away from the defaults: a candidate may set a parameter
+        # back to None
+        return NaiveForecaster(strategy="mean", window_length=6)
     if kind == "trend":
         return PolynomialTrendForecaster()
     if kind == "pipeline":
@@ -59,6 +63,7 @@ def build_base(kind):
 PREFIT_GRIDS = {
     "naive": {"strategy": ["mean", "drift"], "window_length": [3, 5]},
     "trend": {"degree": [2, 3], "with_intercept": [False]},
+    "naive_mean6": {"strategy": ["drift"], "window_length": [3, 4]},
     "pipeline": {"deseasonalizer__sp": [2], "forecaster__strategy": ["mean", "drift"], "forecaster__window_length": [3, 4]},
     "multiplex": {"selected_forecaster": ["trend", "naive"], "trend__degree": [2, 3], "naive__strategy": ["drift"], "naive__window_length": [4]},
     "reduce": {"window_length": [4, 6]},
@@ -256,6 +261,8 @@ def grids(draw, base, search):
                     {"strategy": draw(_subset(["mean", "drift"])), "window_length": draw(_subset([3, 4, 6]))}]
         return [{"strategy": ["mean"], "sp": draw(_subset([2, 3])), "window_length": [6]},
                 {"strategy": ["last", "mean"]}]
+    if base == "naive_mean6":
+        return {"window_length": [None] + draw(_subset([2, 3, 4], 1)), **({"strategy": draw(_subset(["mean", "drift"], 1))} if draw(st.booleans()) else {})}
     if base == "trend":
         return dict({"degree": draw(_subset([0, 1, 2, 3], 2))}, **({"with_intercept": [True]} if draw(st.booleans()) else {}))
     if base == "reduce":
@@ -274,7 +281,7 @@ def grids(draw, base, search):
 
 @st.composite
 def cases(draw):
-    base = draw(st.sampled_from(["naive", "naive", "trend", "pipeline", "multiplex", "reduce"]))
+    base = draw(st.sampled_from(["naive", "naive", "naive_mean6", "trend", "pipeline", "multiplex", "reduce"]))
     search = draw(st.sampled_from(["grid", "grid", "random"]))
     grid = draw(grids(base, search))
     fh = draw(gen.fh_steps(max_step=3, max_size=2))
